@@ -49,7 +49,7 @@ def main():
         import warnings
         warnings.filterwarnings("ignore")
 
-    from mc.core import Ctx, HarnessError, jdump
+    from mc.core import Ctx, HarnessError, ImplementationRaised, jdump
     from mc import findings, evidence
 
     pid = args.prop.upper()
@@ -95,6 +95,25 @@ def main():
         print(f"SUMMARY property={pid} tier={args.tier} seed={seed} {jdump(summ)} unlisted_violations={len(unlisted)} "
               f"known_finding_occurrences={n_known} recheck={ctx.recheck_done} wall_s={wall:.1f}", file=out)
         sys.exit(1 if unlisted else 0)
+    except ImplementationRaised as e:
+        # an exception escaped from the package through a call that never raises on a tree where the property holds
+        from mc.core import viol
+        seen = set()
+        for it in e.items:
+            ie = it["impl_error"]
+            key = f"{pid}|unguarded_exception|{ie['type']}|{ie['where']}"
+            if key in seen:
+                continue
+            seen.add(key)
+            if len(seen) > 20:
+                break
+            v = viol(key, f"{ie['type']} escaped from {ie['where']}: {ie['msg']}", it["case"], observed=ie["traceback"])
+            path = findings.write_replay(pid, v, repo)
+            print(f"VIOLATION property={pid} replay={path}", file=out)
+            print(f"    key={key} :: {v['what']} case={jdump(it['case'])[:300]}", file=out)
+        print(f"SUMMARY property={pid} tier={args.tier} seed={seed} aborted: {len(e.items)} case(s) ended in an exception "
+              f"raised inside the package (evidence file not rewritten)", file=out)
+        sys.exit(1)
     except HarnessError as e:
         print(f"HARNESS-ERROR property={pid}: {e}", file=out)
         sys.exit(2)
